@@ -212,7 +212,8 @@ class Ctx:
             new = re.sub(r"(replace github.com/snower/slock => ).*", r"\g<1>" + REPO, txt)
             if new != txt:
                 open(gomod, "w").write(new)
-            args = ["go", "build", "-o", os.path.join(BUILD, name)]
+            tmpout = os.path.join(BUILD, "%s.tmp%d" % (name, os.getpid()))     # a concurrent check may be executing the old binary
+            args = ["go", "build", "-o", tmpout]
             if tags:
                 args += ["-tags", tags]
             if race:
@@ -229,6 +230,7 @@ class Ctx:
             rc, out, dt = sh(args, cwd=moddir, timeout=900, env=env)
             if rc != 0:
                 raise BuildError("go build %s failed:\n%s" % (name, out[-3000:]))
+            os.replace(tmpout, os.path.join(BUILD, name))
             return os.path.join(BUILD, name)
 
     # ---------------------------------------------------------------- ocaml
@@ -248,9 +250,11 @@ class Ctx:
                 raise BuildError("extraction %s failed:\n%s" % (area, out[-3000:]))
             if os.path.exists(os.path.join(d, "model.mli")):
                 os.remove(os.path.join(d, "model.mli"))
-            rc, out, _ = sh("ocamlfind ocamlopt -O3 -w -a -package str model.ml driver.ml -linkpkg -o modelrun 2>&1 || ocamlfind ocamlopt -w -a -package str model.ml driver.ml -linkpkg -o modelrun", cwd=d, timeout=600)
+            tmpout = "modelrun.tmp%d" % os.getpid()       # a concurrent check may be executing the old binary
+            rc, out, _ = sh("ocamlfind ocamlopt -O3 -w -a -package str model.ml driver.ml -linkpkg -o %s 2>&1 || ocamlfind ocamlopt -w -a -package str model.ml driver.ml -linkpkg -o %s" % (tmpout, tmpout), cwd=d, timeout=600)
             if rc != 0:
                 raise BuildError("ocaml build %s failed:\n%s" % (area, out[-3000:]))
+            os.replace(os.path.join(d, tmpout), os.path.join(d, "modelrun"))
             return os.path.join(d, "modelrun")
 
     # ---------------------------------------------------------------- violations
